@@ -41,6 +41,9 @@ type State struct {
 	ghosts   map[string]string
 	snaps    map[*types.Var]string
 	closures map[*types.Var]*ast.FuncLit
+	defers   []*ast.FuncLit // deferred function literals registered on this path (run at return, last first)
+	errBases []map[string]string // per enclosing loop: callErrs at the loop head (a failed call must not survive an iteration)
+	callErrs map[string]string // call site -> the error term that call returned on this path (for `propagates`)
 	heap     map[string]string
 	heap0    map[string]string
 	allocs   []string
@@ -72,6 +75,12 @@ func (s *State) clone() *State {
 	for k, v := range s.heap {
 		n.heap[k] = v
 	}
+	n.defers = append([]*ast.FuncLit(nil), s.defers...)
+	n.callErrs = map[string]string{}
+	for k, v := range s.callErrs {
+		n.callErrs[k] = v
+	}
+	n.errBases = append([]map[string]string(nil), s.errBases...)
 	n.decls = append([]string(nil), s.decls...)
 	n.pc = append([]string(nil), s.pc...)
 	n.guards = append([]string(nil), s.guards...)
@@ -726,7 +735,42 @@ func verifyFunc(w *World, fi *FuncInfo, sweep bool) (res *FuncResult) {
 	}
 	entry := st
 	nEntryPC := len(st.pc)
+	var finish func(st *State, vals []string)
 	fr.ret = func(st *State, vals []string) {
+		// deferred function literals run after the result values are set and may change named results
+		if len(st.defers) == 0 {
+			finish(st, vals)
+			return
+		}
+		for i, rv := range fr.results {
+			if i < len(vals) {
+				st.env[rv] = vals[i]
+			}
+		}
+		ds := st.defers
+		st.defers = nil
+		var runFrom func(i int, st2 *State)
+		runFrom = func(i int, st2 *State) {
+			if i < 0 {
+				out := vals
+				if len(fr.results) == len(vals) {
+					out = nil
+					for _, rv := range fr.results {
+						out = append(out, st2.env[rv])
+					}
+				}
+				finish(st2, out)
+				return
+			}
+			lit := ds[i]
+			lfr := &frame{fi: nil, loopKey: "", contract: e.fi.Contract, info: info, loopOrd: e.loopOrd}
+			lfr.ret = func(st3 *State, _ []string) { runFrom(i-1, st3) }
+			st2.path = append(st2.path, fmt.Sprintf("defer%d", i))
+			e.execBlock(lit.Body.List, st2, &Ctx{frame: lfr}, func(st3 *State) { runFrom(i-1, st3) })
+		}
+		runFrom(len(ds)-1, st)
+	}
+	finish = func(st *State, vals []string) {
 		e.npaths++
 		if e.npaths > maxPaths {
 			e.unsupported(fi.Decl.Pos(), "more than %d paths", maxPaths)
@@ -746,6 +790,31 @@ func verifyFunc(w *World, fi *FuncInfo, sweep bool) (res *FuncResult) {
 		for i, rn := range c.Results {
 			if i < len(vals) {
 				names[rn] = vals[i]
+			}
+		}
+		// `propagates G#n`: on every path on which that call failed, this function fails too
+		props := c.Propagates
+		if len(props) == 1 && props[0] == "all" {
+			props = nil
+			for k := range st.callErrs {
+				props = append(props, strings.TrimSuffix(strings.TrimPrefix(k, "call["), "]"))
+			}
+			sort.Strings(props)
+		}
+		for _, site := range props {
+			if et, ok := st.callErrs["call["+site+"]"]; ok {
+				errIdx := -1
+				for i, rt := range fr.resTypes {
+					if isErrorType(rt) {
+						errIdx = i
+					}
+				}
+				if errIdx >= 0 && errIdx < len(vals) {
+					e.emit(st, "post", "propagates["+site+"]", "(=> (isErr "+et+") (isErr "+vals[errIdx]+"))", c.PropagatesTags, fi.Decl.Pos(), "a failure of "+site+" is a failure of "+fi.Name)
+				} else if errIdx < 0 {
+					// a function without an error result (a tool's main): it must not reach its end after a failed call
+					e.emit(st, "post", "propagates["+site+"]", "(not (isErr "+et+"))", c.PropagatesTags, fi.Decl.Pos(), fi.Name+" ends normally only if "+site+" succeeded")
+				}
 			}
 		}
 		postStart := len(st.pc)
